@@ -30,9 +30,12 @@ type TrPlan struct {
 	IgnoreErrors bool     `json:"ignore_errors,omitempty"`
 	Module       string   `json:"module"` // repo | scratch
 	Patterns     []string `json:"patterns"`
-	TypeCheck    bool     `json:"typecheck,omitempty"`
-	SrcComments  bool     `json:"source_comments,omitempty"`
-	SkipIfaces   bool     `json:"skip_interfaces,omitempty"`
+	// FileOrderSeed != 0: load the packages afresh with the files of each
+	// package handed to the parser in a permuted order (simpackages.Permute).
+	FileOrderSeed uint64 `json:"file_order_seed,omitempty"`
+	TypeCheck     bool   `json:"typecheck,omitempty"`
+	SrcComments   bool   `json:"source_comments,omitempty"`
+	SkipIfaces    bool   `json:"skip_interfaces,omitempty"`
 }
 
 func (p TrPlan) config() goose.TranslationConfig {
@@ -117,6 +120,8 @@ func setupScratch() error {
 	}
 	sort.Strings(scratchPatterns)
 	scratchDir = d
+	simpackages.SetUniverse(d, scratchPatterns)
+	simpackages.SetUniverse(repoDir(), repoPatterns)
 	return nil
 }
 
@@ -124,6 +129,73 @@ func setupScratch() error {
 // several not-yet-emitted declarations (across files too), so that the order
 // in which dependencies are hoisted is exercised.
 var synthPackages = map[string]map[string]string{
+	// conversion errors in more than one file: the error list must follow the
+	// sorted file order whatever order the loader parsed the files in
+	"errs2": {
+		"a_big.go": `package errs2
+
+import "sync"
+
+type holdsMutex struct {
+	m sync.Mutex
+}
+
+func fineA(x uint64) uint64 { return x + 1 }
+
+func usesGoto(x uint64) uint64 {
+	if x > 3 {
+		goto done
+	}
+	x = x + 1
+done:
+	return x
+}
+`,
+		"b_small.go": `package errs2
+
+func namedResult() (r uint64) {
+	r = 3
+	return
+}
+`,
+		"c_fine.go": `package errs2
+
+func fineC(x uint64) uint64 { return fineA(x) * 2 }
+
+type twoConds struct {
+	a chan uint64
+}
+`},
+	// an FFI reached only through another (non-FFI) package that several
+	// co-translated packages share
+	"ffistore": {"store.go": `package ffistore
+
+import "github.com/goose-lang/goose/machine/disk"
+
+func Put(a uint64, b disk.Block) {
+	disk.Write(a, b)
+}
+
+func Get(a uint64) disk.Block {
+	return disk.Read(a)
+}
+`},
+	"ffiapp1": {"app.go": `package ffiapp1
+
+import "vscratch/synth/ffistore"
+
+func Copy(from uint64, to uint64) {
+	ffistore.Put(to, ffistore.Get(from))
+}
+`},
+	"ffiapp2": {"app.go": `package ffiapp2
+
+import "vscratch/synth/ffistore"
+
+func Clear(a uint64, zero []byte) {
+	ffistore.Put(a, zero)
+}
+`},
 	"fwd": {"fwd.go": `package fwd
 
 func top(x uint64) uint64 {
@@ -216,6 +288,12 @@ func translate(p *TrPlan, tape *simrt.Tape, keepLog bool) (results []trResult, l
 	}
 	s := simrt.New(simrt.Config{Tape: tape, KeepLog: keepLog, MaxSteps: 50_000_000})
 	tr := p.config()
+	if p.FileOrderSeed != 0 {
+		simpackages.Permute = func(pkgPath string, files []string) []int {
+			return simrt.NewRand(simrt.Mix(p.FileOrderSeed, simrt.HashString(pkgPath))).Perm(len(files))
+		}
+		defer func() { simpackages.Permute = nil }()
+	}
 	res = s.Run(func() {
 		files, errs, perr := tr.TranslatePackages(modDir, p.Patterns...)
 		loaded = append([]string(nil), simpackages.LastLoad...)
@@ -319,7 +397,17 @@ func (c06) Gen(rng *simrt.Rand, tier string, run int) interface{} {
 	p.TypeCheck = rng.Chance(1, 3)
 	p.SrcComments = rng.Chance(1, 3)
 	p.SkipIfaces = rng.Chance(1, 4)
-	if run%8 == 5 && os.Getenv("VERIF_C06_GOOSE") != "" {
+	if p.Module == "scratch" && run%12 == 1 {
+		// fresh loads cost a `go list` each: small pattern sets, multi-file packages preferred
+		p.FileOrderSeed = rng.Uint64() | 1
+		if len(p.Patterns) > 2 {
+			p.Patterns = p.Patterns[:2]
+		}
+		if rng.Chance(1, 2) {
+			p.Patterns[0] = rng.PickStr("./synth/errs2", "./synth/multi", "./synth/errs2")
+		}
+	}
+	if run%16 == 5 && os.Getenv("VERIF_C06_GOOSE") != "" {
 		p.Binary = true
 		p.IgnoreErrors = rng.Chance(1, 3)
 		if len(p.Patterns) > 4 {
@@ -347,6 +435,11 @@ func (c06) Shrink(pj json.RawMessage) []json.RawMessage {
 	if p.TypeCheck || p.SrcComments || p.SkipIfaces {
 		q := p
 		q.TypeCheck, q.SrcComments, q.SkipIfaces = false, false, false
+		add(q)
+	}
+	if p.FileOrderSeed != 0 {
+		q := p
+		q.FileOrderSeed = 0
 		add(q)
 	}
 	return out
@@ -414,6 +507,9 @@ func (c06) Exec(pj json.RawMessage, tape *simrt.Tape, keepLog bool) harness.RunO
 		out.Probes["workers_interleaved"]++
 	}
 	out.Probes["real_loader_invocations"] = simpackages.Loads
+	if p.FileOrderSeed != 0 {
+		out.Probes["fresh_loads_with_permuted_file_order"]++
+	}
 	fail := func(oracle, msg string) {
 		if out.Violation == nil {
 			out.Violation = &harness.Violation{Oracle: oracle, Key: oracle, Msg: msg}
